@@ -27,7 +27,7 @@ ASSUMPTIONS = ["every statement is printed on one line, so the line of a call is
                "which natives run with a stub frame is taken from NativeMetaBuilder::with_stack at the pinned commit "
                "(pbt/lang/natives.py STACK_NATIVES)",
                "messages of vm raised runtime faults are not compared (only their class)"]
-GATES = {"nontrivial": 0.50, "uncaught": 0.20, "caught": 0.20}
+GATES = {"nontrivial": 0.50, "uncaught": 0.12, "caught": 0.20}
 LEVEL_TEXT = "Model-based search over generated call-chain shapes and line layouts; bounded by the generated shapes."
 LEVEL_NOTE = "Trusted base: reference evaluator's frame/line tracking, printer line recording, worker harness."
 TECHNIQUE = "property-based testing (Hypothesis): model-based oracle over generated call chains and line layouts"
